@@ -490,6 +490,7 @@ func runC12(c *Ctx) {
 	runConfSubProvenance(c, "R6")
 	runC12Round3(c)
 	runC12Sanitize(c)
+	runC12Round4(c)
 }
 
 func guardedNilValue(b *ssa.BasicBlock, v ssa.Value) bool {
